@@ -178,7 +178,8 @@ static void observe(World &w, const char *tags) {
     bool bad = false;
     for (auto it = cv.begin(); it != cv.end(); ++it, ++x) {
       const char *why = nullptr;
-      if (!E::sane(*it, &why)) vf::fail("C02", "slot %d element %ld: %s", i, x, why);
+      // a torn, stale or moved-from visible element is also not the element std::vector holds there
+      if (!E::sane(*it, &why)) vf::fail("C01,C02", "slot %d element %ld: %s", i, x, why);
       int val = E::val(*it);
       dig(val);
       if (val != mv[x]) {
